@@ -25,6 +25,8 @@ typedef struct unit {
     struct unit *fwd;      /* the descriptor was revived as that unit (the migration callback keeps the first argument) */
     int last_mig_tgt, force_tgt; /* pool of the last completed migration (+1, 0 = none); a revived unit asks for it again */
     int ext_join;                /* joined and freed by the external joiner thread, not by the primary ULT */
+    int never;                   /* cancelled before it could start: its function must never be entered */
+    int first_pool;              /* >= 0: a migration requested before its first run: it must start from that pool */
     volatile int join_started, cancel_done; /* a late cancellation is posted only before somebody starts joining the unit */
     long arg_seen;
 } unit;
@@ -82,6 +84,7 @@ static int new_unit(int parent, int allow_task)
     memset(u, 0, sizeof *u);
     u->id = nunits++;
     u->parent = parent;
+    u->first_pool = -1;
     int k = sc_rnd(10);
     u->kind = (allow_task && k < 2) ? AK_TASK : AK_ULT;
     u->named = (parent < 0) ? 1 : (sc_rnd(3) != 0); /* children may be unnamed: nobody joins them */
@@ -193,6 +196,7 @@ static int revive_unit(int old)
     memset(u, 0, sizeof *u);
     u->id = nunits++;
     u->parent = -1;
+    u->first_pool = -1;
     u->kind = o->kind;
     u->named = 1;
     u->pool = sc_rnd(npools);
@@ -261,6 +265,14 @@ static void unit_fn(void *arg)
     u->in_run = 1;
     vs_note("userStart U%d", u->id); /* the log line's unit column is the T-name: binds U<i> to it */
     VSA_CHECK(u->started == 1, "unit U%d started %d times", u->id, u->started);
+    VSA_CHECK(!u->never, "U%d was cancelled before it could start, yet its function is invoked", u->id);
+    if (u->first_pool >= 0) {
+        ABT_pool lp;
+        ABT_OK(ABT_thread_get_last_pool(self, &lp));
+        VSA_CHECK(lp == sc_pool[u->first_pool], "U%d was asked to migrate to P%d before its first run but starts from another pool",
+                  u->id, u->first_pool);
+        u->pool = u->first_pool;
+    }
     int children[8], nch = 0;
     for (int i = 0; i < u->nsteps; i++) {
         int op = u->steps[i];
@@ -350,8 +362,8 @@ static void unit_fn(void *arg)
                 ABT_OK(ABT_xstream_self_rank(&rank));
                 int last = (i == u->nsteps - 1 && nch == 0);
                 int how = sc_rnd(5); /* 0 yield_to 1 suspend_to 2 exit_to 3 resume_suspend_to 4 resume_exit_to */
-                if ((how == 1 || how == 3) && !u->named)
-                    how = 0;
+                if ((how == 1 || how == 3) && (!u->named || u->ext_join))
+                    how = (how == 3 && last) ? 4 : 0; /* (units freed by the external joiner never wait for the resumer) */
                 if ((how == 2 || how == 4) && !last)
                     how = (how == 2) ? 0 : (u->named ? 3 : 0);
                 ABT_thread tgt = ABT_THREAD_NULL;
@@ -369,8 +381,10 @@ static void unit_fn(void *arg)
                         void *targ = NULL;
                         ABT_OK(ABT_thread_get_arg(tgt, &targ));
                         unit *t = (unit *)targ;
-                        if (t < U || t >= U + MAXU || t->kind != AK_ULT) {
-                            /* a tasklet or the primary ULT: put it back */
+                        if (t < U || t >= U + MAXU || t->kind != AK_ULT || t->never || (t->first_pool >= 0 && !t->started)) {
+                            /* a tasklet, the primary ULT, or a unit this program cancelled before it started (a directed
+                             * switch does not pass the scheduler's request handling and would start it; likewise a unit
+                             * with a migration requested before its first run): put it back */
                             ABT_OK(ABT_pool_push_thread(sc_pool[u->pool], tgt));
                             tgt = ABT_THREAD_NULL;
                         } else {
@@ -466,8 +480,29 @@ static void unit_fn(void *arg)
                     VSA_CHECK(rc == ABT_SUCCESS, "migrate_to_pool of U%d returned %d", u->id, rc);
                     int cb0 = u->mig_cb;
                     vs_note("migReq U%d P%d", u->id, tgt);
-                    int how = sc_rnd(4);
-                    if (how == 1 && nch > 0) {
+                    if (sc_rnd(3) == 0) {
+                        /* (re)registering the callback while the request is pending must not disturb the request */
+                        ABT_OK(ABT_thread_set_callback(self, mig_cb, u));
+                        u->has_cb = 1;
+                    }
+                    int how = sc_rnd(5);
+                    if (how == 4 && u->named) {
+                        /* ... or in the callback of a resume_suspend_to: this unit blocks, owed to the target pool */
+                        int t = -1;
+                        for (int k = 0; k < nunits; k++)
+                            if (k != u->id && claim_resume(&U[k])) {
+                                t = k;
+                                break;
+                            }
+                        if (t >= 0) {
+                            u->want_resume++;
+                            vs_log("apiCall resume_suspend_to U%d", t);
+                            u->in_run = 0;
+                            ABT_OK(ABT_self_resume_suspend_to(U[t].th));
+                            VSA_CHECK(u->in_run == 0, "unit U%d resumed on two streams at once", u->id);
+                            u->in_run = 1;
+                        }
+                    } else if (how == 1 && nch > 0) {
                         /* the request is handled when this unit blocks in the join inside ABT_thread_free (if the
                          * child is still running): the caller then comes back on the target pool's stream */
                         u->in_run = 0;
@@ -741,7 +776,30 @@ int main(int argc, char **argv)
                     U[t].steps[k] = OP_YIELD;
             U[t].moves = 1;
         }
+        U[t].first_pool = -1;
         launch_unit(t);
+        if (!any_migrate && U[t].pool == 0 && sc_rnd(4) == 0) {
+            /* this unit sits in the primary stream's pool and the primary ULT has not given up the stream since it
+             * created it: it cannot have started.  Either cancel it (it must never run) or send it elsewhere (it
+             * must start from the requested pool: for a tasklet the pop is the only moment the request can be honoured) */
+            if (sc_rnd(2) || nes < 2 || topo) {
+                U[t].cancel_me = 1;
+                U[t].never = 1;
+                vs_log("apiCall cancel U%d", t);
+                ABT_OK(ABT_thread_cancel(U[t].th));
+                U[t].cancel_done = 1;
+            } else {
+                int tgt = 1 + sc_rnd(nes - 1);
+                for (int k = 0; k < U[t].nsteps; k++)
+                    if (U[t].steps[k] != OP_YIELD && U[t].steps[k] != OP_STATE)
+                        U[t].steps[k] = (U[t].kind == AK_TASK) ? OP_STATE : OP_YIELD;
+                U[t].moves = 1;
+                U[t].first_pool = tgt;
+                vs_note("migReq U%d P%d", t, tgt);
+                vs_log("apiCall migrate_fresh U%d P%d", t, tgt);
+                ABT_OK(ABT_thread_migrate_to_pool(U[t].th, sc_pool[tgt]));
+            }
+        }
         if (any_migrate) {
             vs_log("apiCall migrate_any U%d", t);
             int rc = ABT_thread_migrate(U[t].th);
@@ -770,7 +828,7 @@ int main(int argc, char **argv)
         if (!U[tops[i]].cancel_me && sc_rnd(4) == 0) {
             int has_susp = 0;
             for (int k = 0; k < U[tops[i]].nsteps; k++)
-                if (U[tops[i]].steps[k] == OP_SUSPEND || U[tops[i]].steps[k] == OP_SWITCH || U[tops[i]].steps[k] == OP_MIGRATE)
+                if (U[tops[i]].steps[k] == OP_SUSPEND || U[tops[i]].steps[k] == OP_MIGRATE)
                     has_susp = 1; /* the resumer reads their handles: they stay with the primary, which joins before it frees */
             if (!has_susp) {
                 U[tops[i]].ext_join = 1;
